@@ -556,6 +556,10 @@ Definition nthN {A} (l : list A) (i : N) (d : A) : A := nth (N.to_nat i) l d.
 Definition patv (a n : N) : value :=
   map (fun i => (a + 7 * N.of_nat i) mod 256) (seq 0 (N.to_nat n)).
 
+(* compact literals for the case files: a key / a 256-bit number written as hex text *)
+Definition kx (s : string) : key := of_codes (hx s).
+Definition nx (s : string) : N := fold_left (fun a b => 256 * a + b) (hx s) 0.
+
 Definition kix (T : tables) (k : key) : N := index_of keyb k (t_keys T).
 
 Definition vix (T : tables) (v : value) : N := index_of value_eqb v (t_vals T).
@@ -629,7 +633,9 @@ Definition dump_eqb (a b : dump) : bool :=
 (* operations and outputs as the harness writes them (table indices) *)
 Inductive iop :=
 | IPut (k v t : N) | IPutLocal (k v : N) | IRemove (k : N) | IGet (k : N) | IRun | IDeliver (j : N)
-| ISetRange (d : N) | ICleanup | IPay | IQuote (k : N) | ICrash (tears : list (N * N)).
+| ISetRange (d : N) | ICleanup | IPay | IQuote (k : N) | ICrash (tears : list (N * N))
+(* run-length forms of long undumped stretches (bulk fills of the clean-up cases) *)
+| IRuns (n : N) | IDelivers0 (n : N) | IPuts (k0 n v t : N).
 Inductive iout :=
 | JNone | JPut (ok : bool) | JPutLocal (code : N) (far : option N) | JGet (v : N)
 | JQuote (close maxr pay : N) (stored : bool).
@@ -652,6 +658,30 @@ Definition op_of (T : tables) (o : iop) : op :=
   | IPay => OPay
   | IQuote k => OQuote (tkey T k)
   | ICrash tears => OCrash (map (fun p => (tkey T (fst p), snd p)) tears)
+  | IRuns _ | IDelivers0 _ | IPuts _ _ _ _ => OGet EmptyString      (* expanded by `expand`, never used *)
+  end.
+
+(* n task runs / n deliveries of the oldest notification / n accepted puts of consecutive keys *)
+Definition expand (T : tables) (o : iop) : option (list op * bool) :=
+  match o with
+  | IRuns n => Some (repeat (ORun 0) (N.to_nat n), false)
+  | IDelivers0 n => Some (repeat (ODeliver 0) (N.to_nat n), false)
+  | IPuts k0 n v t =>
+      Some (map (fun i => OPut (tkey T (k0 + N.of_nat i)) (tval T v) (ttype T v t)) (seq 0 (N.to_nat n)), true)
+  | _ => None
+  end.
+
+Fixpoint run_multi (E : env) (s : state) (l : list op) (expect_put : bool) : state * bool :=
+  match l with
+  | [] => (s, true)
+  | o :: r =>
+      let (s', m) := step E s o in
+      let ok := match m with
+                | UPut true => expect_put
+                | UNone => negb expect_put
+                | _ => false
+                end in
+      let (s'', ok') := run_multi E s' r expect_put in (s'', ok && ok')
   end.
 
 Definition out_eqb (T : tables) (m : out) (j : iout) : bool :=
@@ -674,8 +704,14 @@ Fixpoint agree_steps (T : tables) (E : env) (s : state) (l : list (iop * iout * 
   match l with
   | [] => true
   | (o, j, d) :: r =>
-      let (s', m) := step E s (op_of T o) in
-      out_eqb T m j && dump_ok T E s' d && agree_steps T E s' r
+      match expand T o with
+      | Some (ops, e) =>
+          let (s', ok) := run_multi E s ops e in
+          ok && out_eqb T UNone j && dump_ok T E s' d && agree_steps T E s' r
+      | None =>
+          let (s', m) := step E s (op_of T o) in
+          out_eqb T m j && dump_ok T E s' d && agree_steps T E s' r
+      end
   end.
 
 (* index of the first step that disagrees (diagnostics) *)
@@ -683,9 +719,16 @@ Fixpoint first_bad (T : tables) (E : env) (s : state) (l : list (iop * iout * op
   match l with
   | [] => None
   | (o, j, d) :: r =>
-      let (s', m) := step E s (op_of T o) in
-      if out_eqb T m j && dump_ok T E s' d then first_bad T E s' r (i + 1)
-      else Some (i, m, abs_state T E s')
+      match expand T o with
+      | Some (ops, e) =>
+          let (s', ok) := run_multi E s ops e in
+          if ok && out_eqb T UNone j && dump_ok T E s' d then first_bad T E s' r (i + 1)
+          else Some (i, UNone, abs_state T E s')
+      | None =>
+          let (s', m) := step E s (op_of T o) in
+          if out_eqb T m j && dump_ok T E s' d then first_bad T E s' r (i + 1)
+          else Some (i, m, abs_state T E s')
+      end
   end.
 
 (* names and nonces the implementation derived for every key of the universe *)
